@@ -3,7 +3,7 @@
 # and confirm + evaluate each (tools/seedcheck.py). Removes the agent's worktree afterwards.
 p=$1
 wt=/tmp/wt_$p
-for d in $wt/seeded_out/m*; do
+for d in $wt/seeded_out/[mn]*; do
   [ -f $d/patch.diff ] || continue
   n=$(basename $d)
   t=/verif/seeded/$p-$n
